@@ -29,9 +29,9 @@ import (
 )
 
 type fiatParam struct {
-	name  string
-	isPtr bool
-	n     int // array length for pointer-to-array, 0 for *uint64 scalar pointer / plain value
+	name     string
+	isPtr    bool
+	n        int // array length for pointer-to-array, 0 for *uint64 scalar pointer / plain value
 	arrayVal bool
 	wrapped  bool // struct with one limb-array field (field.Element.E, Scalar.S)
 }
@@ -49,24 +49,24 @@ type fiatSig struct {
 var fiatSigs = map[string]map[string]*fiatSig{} // package -> Go function name -> signature
 
 type fiatTr struct {
-	fset     *token.FileSet
-	pkg      string
-	fname    string
-	params   []fiatParam
-	pmap     map[string]*fiatParam
-	cur      map[string]string // variable or "p[i]" -> current Lean expression
-	written  map[string]bool   // pointer params written
-	firstW   string
-	lines    []string
-	np       int
-	nt       int
-	ret      string
-	helpers  map[string]bool // callable pure helpers (same package) returning uint64
-	consts   map[string][]string
-	arrays   map[string]int // local arrays
+	fset    *token.FileSet
+	pkg     string
+	fname   string
+	params  []fiatParam
+	pmap    map[string]*fiatParam
+	cur     map[string]string // variable or "p[i]" -> current Lean expression
+	written map[string]bool   // pointer params written
+	firstW  string
+	lines   []string
+	np      int
+	nt      int
+	ret     string
+	helpers map[string]bool // callable pure helpers (same package) returning uint64
+	consts  map[string][]string
+	arrays  map[string]int // local arrays
 	// API mode (methods of the root package): nil guards, package-qualified callees, Bool/error results
 	api      bool
-	qual     map[string]string // imported package name -> Lean namespace of its translated functions
+	qual     map[string]string   // imported package name -> Lean namespace of its translated functions
 	methods  map[string]*fiatSig // "Recv.Method" of the package being translated
 	guards   []apiGuard
 	retKind  string // "", "nat", "bool", "error"
@@ -83,7 +83,9 @@ func (t *fiatTr) fail(n ast.Node, msg string) {
 	panic(fmt.Sprintf("%s: unsupported construct in %s.%s: %s", t.fset.Position(n.Pos()), t.pkg, t.fname, msg))
 }
 
-func (t *fiatTr) emit(name, rhs string) { t.lines = append(t.lines, fmt.Sprintf("  let %s := %s", name, rhs)) }
+func (t *fiatTr) emit(name, rhs string) {
+	t.lines = append(t.lines, fmt.Sprintf("  let %s := %s", name, rhs))
+}
 
 func litVal(b *ast.BasicLit) (string, bool) {
 	if b.Kind != token.INT {
@@ -681,7 +683,7 @@ type apiCtx struct {
 }
 
 func translateWith(fset *token.FileSet, pkg string, fn *ast.FuncDecl, helpers map[string]bool, consts map[string][]string, leanName string, api *apiCtx) string {
-	t := &fiatTr{optional: map[string]bool{},fset: fset, pkg: pkg, fname: fn.Name.Name, pmap: map[string]*fiatParam{}, cur: map[string]string{},
+	t := &fiatTr{optional: map[string]bool{}, fset: fset, pkg: pkg, fname: fn.Name.Name, pmap: map[string]*fiatParam{}, cur: map[string]string{},
 		written: map[string]bool{}, helpers: helpers, consts: map[string][]string{}, arrays: map[string]int{}}
 	for k, v := range consts {
 		t.consts[k] = v
